@@ -64,8 +64,7 @@ def run(chk, model_ok=True):
             if npanic <= 5:
                 chk.violation("oracle", f"panic on the receive path: {ln[:200]}",
                               {"kind": "oracle", "lines": [ln], "impl": [out], "expected": "a value or an SnmpError, never a panic"})
-    # the privdec stream is not implemented by the model driver yet: exclude it from the diff
-    st.diff("C01 decoders", known=lambda d: d[1].startswith("privdec "))
+    st.diff("C01 decoders")
     st.coverage(
         "streams: corpus of former crashers; structured-valid (40%) / mutated (40%) / grammar-malformed (20%) "
         "inputs for the header parser, every typed decoder, SnmpValue, relative-OID normalisation, PDUs, the three "
